@@ -52,6 +52,21 @@ def _work(job):
         except EngineError as ex:
             out["error"] = f"inadmissible: {ex}"
             out["wall"] = time.time() - t0
+            # the function left the supported subset: still search the real function for a contract violation
+            if kind == "fn":
+                try:
+                    e.prepare_inputs(target)
+                    rp_ = try_replay(e, mod, target, kind, None, seed)
+                    if rp_.get("status") == "confirmed":
+                        out["error"] = None
+                        out["obligations"] = [{
+                            "oid": f"{pid}/{target}/contract", "kind": "post", "descr": "contract of the function "
+                            f"(function is outside the verifier's subset: {ex}); failing input found by small-scope search",
+                            "queries": 0, "result": "refuted", "backends": ["native-search"], "time": 0.0,
+                            "reason": f"inadmissible: {ex}", "exact": False, "replay": rp_, "lineno": 0}]
+                        out["info"] = dict(e.fn_info.get(target, {}))
+                except Exception:  # noqa: BLE001
+                    pass
             return out
         tmo = QUICK_TIMEOUT_MS if tier == "quick" else THOROUGH_TIMEOUT_MS
         groups = {}
